@@ -119,6 +119,9 @@ def run(ctx):
     c02.rule_components(ctx)                   # R02.2 X1 on force loops
     c12.rule_x1(ctx)                           # R12.2 X1 on transforms and frame changes
     rule_com_balance(ctx)
+    c01.rule_compositions(ctx)                 # R01.2: uniform COM motion needs every drift sequence to sum to dt
+    from . import c09
+    c09.rule_frames(ctx)                       # R09.6: invariants across synchronisation (MERCURIUS frames)
     c13.rule_merge(ctx)                        # R13.3 merge conserves mass, momentum, centre of mass
     rule_diagnostics(ctx)
     ias15.rule_kahan(ctx, 'R04.5')
